@@ -56,6 +56,8 @@ func isErrParamNilTest(p *eng.Prog, cond ssa.Value, param ssa.Value) (isTest boo
 
 func runC19(c *eng.Ctx) {
 	p := c.P
+	responseErrorAlwaysExamined(c)
+	stagePoolsAreDistinct(c)
 
 	// ---- 1. children registered before the parent completes -----------------------------------
 	c.Rule("ORDER", plT+".executeStage{children<complete}", func() {
